@@ -209,7 +209,8 @@ func (b *Box) maybeGC() {
 
 	epochsAfterWhichWeGC := b.GCExpire / b.GCSweep
 
-	if time.Duration(now-lastGC) > epochsAfterWhichWeGC {
+	// Garbage collect at most once per expiration period
+	if time.Duration(now-lastGC) < epochsAfterWhichWeGC {
 		return
 	}
 
@@ -247,7 +248,11 @@ func (b *Box) mark(now uint64, epochsAfterWhichWeGC time.Duration) []string {
 	defer b.lock.RUnlock()
 
 	for topic, messages := range b.pendingMessages {
-		if float64(messages.lastUsed.Unix())+b.GCExpire.Seconds() < float64(now) {
+		messages.lock.RLock()
+		lastUsed := messages.lastUsed
+		messages.lock.RUnlock()
+
+		if time.Since(lastUsed) > b.GCExpire {
 			topics2Delete = append(topics2Delete, topic)
 		}
 	}
